@@ -107,4 +107,13 @@ structure Delimit (ext : Ext) (fcbSup : Bool) (init : Nat) (slots : List Slot) :
   find : ∀ s ∈ slots, s.present init = true → s.seg.extFind = true → ∀ rest : Bytes,
     ext.find s.seg.kind (s.bytes ++ rest) = some 0
 
+/-- trailing bytes behind an exported image of `n` bytes (flash dump) that do not disturb the walk: the last table entry is
+    not a whole-rest parser (MBI / HAB / SB2.1 / SB3.1 would swallow them) and, when it is an absent floating entry
+    (secondary container set), the trailing bytes end at or before the aligned offset where `_parse` would look for it
+    (otherwise `find_segment_offset` runs over the trailing bytes) -/
+def TrailOK (init : Nat) (slots : List Slot) (n : Nat) (tail : Bytes) : Prop :=
+  ∀ s, slots.getLast? = some s → s.seg.parser ≠ .greedy ∧ s.seg.parser ≠ .sb ∧
+    (s.present init = false → n + tail.length ≤ alignNat n s.seg.align)
+
+
 end SpsdkVerif.Bimg
